@@ -99,15 +99,46 @@ Example views_consistent_nonvacuous :
      OSamplesDec [5; 0; 5]].
 Proof. vm_compute. auto. Qed.
 
-(* M.apply with collapse=True: the state becomes the (un-normalised) projection P psi onto the
-   recorded outcome of the SORTED qubits and the squared norm used for the normalisation is the
-   Born probability of that outcome *)
+(* M.apply with collapse=True, for the gate's qubits in ANY order: the state becomes the
+   (un-normalised) projection P psi onto the recorded outcome, the recorded bits being read in the
+   order of the gate's own qubits, and the squared norm used for the normalisation is the Born
+   probability of that outcome.  (Before the repair of MeasurementResult.add_shot the bits were
+   recorded in sorted-qubit order and this statement was false for unsorted lists, e.g.
+   M(2,0,collapse=True) on |100>.) *)
 Theorem collapse_ok :
   forall n tq shot psi, NoDup tq -> (forall q, In q tq -> q < n) ->
-    collapsed (m_apply n tq shot psi) = Some (project n (sort_nat tq) (recorded (m_apply n tq shot psi)) psi) /\
-    cnorm2 (m_apply n tq shot psi) = born n (sort_nat tq) (map zi_norm2 psi) (recorded (m_apply n tq shot psi)).
-Proof. exact m_apply_sorted. Qed.
+    collapsed (m_apply n tq shot psi) = Some (project n tq (recorded (m_apply n tq shot psi)) psi) /\
+    cnorm2 (m_apply n tq shot psi) = born n tq (map zi_norm2 psi) (recorded (m_apply n tq shot psi)).
+Proof. exact m_apply_correct. Qed.
 Print Assumptions collapse_ok.
+
+Theorem collapse_recorded_order :
+  forall n tq shot psi, NoDup tq -> (forall q, In q tq -> q < n) ->
+    collapsed (m_apply n tq shot psi) = Some (project n tq (recorded (m_apply n tq shot psi)) psi).
+Proof. exact m_apply_recorded_order. Qed.
+Print Assumptions collapse_recorded_order.
+
+Example collapse_recorded_order_nonvacuous :
+  NoDup [2; 0] /\ (forall q, In q [2; 0] -> q < 3) /\
+  recorded (m_apply 3 [2; 0] 2 [zi0; zi0; zi0; zi0; zi1; zi0; zi0; zi0]) = [false; true] /\
+  collapsed (m_apply 3 [2; 0] 2 [zi0; zi0; zi0; zi0; zi1; zi0; zi0; zi0])
+    = Some [zi0; zi0; zi0; zi0; zi1; zi0; zi0; zi0].
+Proof.
+  split; [|split; [|split]].
+  - constructor; [cbn; intros [H|[]]; discriminate | constructor; [intros [] | constructor]].
+  - intros q [<-|[<-|[]]]; auto.
+  - reflexivity.
+  - vm_compute. reflexivity.
+Qed.
+
+(* result.symbols[i] stands for target_qubits[i]: on the support of the collapsed state
+   (= where sel tq x is the recorded outcome, by collapse_ok) that qubit has the symbol's value *)
+Theorem symbols_follow_gate_order :
+  forall n tq shot psi i x, i < length tq ->
+    beqb (sel tq x) (recorded (m_apply n tq shot psi)) = true ->
+    nth (nth i tq 0) x false = symbol_outcome (m_apply n tq shot psi) i.
+Proof. exact symbols_gate_order. Qed.
+Print Assumptions symbols_follow_gate_order.
 
 (* collapse_density_matrix (what M.apply_density_matrix calls on the sorted qubits) = P rho P *)
 Theorem collapse_dm_ok :
@@ -115,32 +146,6 @@ Theorem collapse_dm_ok :
     collapse_dm n qs shot rho = Some (project_dm n qs (to_bin (length qs) shot) rho).
 Proof. exact collapse_dm_sorted. Qed.
 Print Assumptions collapse_dm_ok.
-
-(* FULL STATEMENT (collapse_recorded_order): forall n tq shot psi, NoDup tq -> in range ->
-     collapsed (m_apply n tq shot psi) = Some (project n tq (recorded (m_apply n tq shot psi)) psi)
-   i.e. the recorded bits are in the order of the gate's qubits.  FALSE of the faithful model: *)
-Theorem collapse_recorded_order_refuted :
-  exists n tq shot psi,
-    NoDup tq /\ (forall q, In q tq -> q < n) /\ shot < 2 ^ length tq /\
-    collapsed (m_apply n tq shot psi) <> Some (project n tq (recorded (m_apply n tq shot psi)) psi).
-Proof.
-  exists 3, [2; 0], 2, [zi0; zi0; zi0; zi0; zi1; zi0; zi0; zi0].
-  exact m_apply_recorded_order_counterexample.
-Qed.
-Print Assumptions collapse_recorded_order_refuted.
-
-(* ... and true when the gate's qubits are given in ascending order.
-   Missing w.r.t. the full statement: qubit lists that are not ascending. *)
-Theorem collapse_recorded_order_partial :
-  forall n tq shot psi, asc 0 tq = true -> (forall q, In q tq -> q < n) ->
-    collapsed (m_apply n tq shot psi) = Some (project n tq (recorded (m_apply n tq shot psi)) psi).
-Proof. exact m_apply_recorded_order_asc. Qed.
-Print Assumptions collapse_recorded_order_partial.
-
-Example collapse_recorded_order_partial_nonvacuous :
-  asc 0 [0; 2] = true /\ (forall q, In q [0; 2] -> q < 3) /\
-  recorded (m_apply 3 [0; 2] 2 [zi0; zi0; zi0; zi0; zi1; zi0; zi0; zi0]) = [true; false].
-Proof. split; [reflexivity | split; [intros q [<-|[<-|[]]]; auto | reflexivity]]. Qed.
 
 (* the decidable oracle that harness/c03.py and harness/c14.py evaluate (by vm_compute) on the
    outputs of the REAL implementation is sound for the specification *)
